@@ -24,6 +24,7 @@ package binaryheap
 //@   requires comparator != nil && SWO(comparator, argof(comparator, 0))
 //@   modifies nothing
 //@   ensures [C06 C15 C17] fresh(result) && Inv(result) && N(result) == 0 && result.Comparator == comparator && fresh(result.list)
+//@   ensures [C16] isnil(result.list.elements) || fresh(arr(result.list.elements))
 
 //@ func Heap.bubbleDownIndex
 //@   requires Shape(heap) && index >= 0 && OrdFrom(heap, index + 1)
@@ -187,3 +188,108 @@ package binaryheap
 //@   ensures [C12] atomic: result != nil ==> L(heap) == old(L(heap))
 //@   ensures [C06 C11 C12] loaded: jarr_kind(bytes, elemof(heap.list.elements)) == 3 ==> N(heap) == jarr_len(bytes, elemof(heap.list.elements)) && IsPerm(src, sinv, N(heap)) && (forall k :: 0 <= k && k < N(heap) ==> L(heap)[k] == jarr_at(bytes, src[k], elemof(heap.list.elements)))
 //@   ensures [C12] null: jarr_kind(bytes, elemof(heap.list.elements)) == 2 ==> N(heap) == 0
+
+// ---- iterator: a cursor over positions -1..n (C08). Value() recomputes the k-th smallest element of the index's level
+// ---- with a temporary heap; Values() is *defined* by this iterator, so "Value() is Values()[Index()]" holds by
+// ---- construction and only the cursor rules, safety, termination and purity are stated ----
+
+//@ pred ItInv(it) := it != nil && it.heap != nil && Inv(it.heap) && 0 - 1 <= it.index && it.index <= N(it.heap)
+
+//@ func Heap.Iterator
+//@   requires Inv(heap)
+//@   modifies nothing
+//@   ensures [C08 C17 C18] fresh(result) && ItInv(result) && result.heap == heap && result.index == 0 - 1
+
+//@ func Iterator.Next
+//@   requires ItInv(iterator)
+//@   modifies iterator.index
+//@   ensures [C08 C17] ItInv(iterator) && iterator.index == min(old(iterator.index) + 1, N(iterator.heap))
+//@   ensures [C08] result == (0 <= iterator.index && iterator.index < N(iterator.heap))
+
+//@ func Iterator.Prev
+//@   requires ItInv(iterator)
+//@   modifies iterator.index
+//@   ensures [C08 C17] ItInv(iterator) && iterator.index == max(old(iterator.index) - 1, 0 - 1)
+//@   ensures [C08] result == (0 <= iterator.index && iterator.index < N(iterator.heap))
+
+//@ func Iterator.Index
+//@   requires ItInv(iterator)
+//@   modifies nothing
+//@   ensures [C08 C17 C18] result == iterator.index
+
+//@ func Iterator.Begin
+//@   requires ItInv(iterator)
+//@   modifies iterator.index
+//@   ensures [C08 C17] ItInv(iterator) && iterator.index == 0 - 1
+
+//@ func Iterator.End
+//@   requires ItInv(iterator)
+//@   modifies iterator.index
+//@   ensures [C08 C17] ItInv(iterator) && iterator.index == N(iterator.heap)
+
+//@ func Iterator.First
+//@   requires ItInv(iterator)
+//@   modifies iterator.index
+//@   ensures [C08 C17] ItInv(iterator) && iterator.index == 0 && result == (N(iterator.heap) > 0)
+
+//@ func Iterator.Last
+//@   requires ItInv(iterator)
+//@   modifies iterator.index
+//@   ensures [C08 C17] ItInv(iterator) && iterator.index == N(iterator.heap) - 1 && result == (N(iterator.heap) > 0)
+
+//@ -- numOfBits: number of binary digits of n >= 0 (the loop halves n; it would not terminate for n < 0)
+//@ func numOfBits
+//@   requires n >= 0
+//@   modifies nothing
+//@   ensures [C17] result >= 0 && (n == 0 <==> result == 0)
+//@   loop 1:
+//@     invariant n >= 0 && count >= 0 && (count == 0 ==> n == n0) && (n0 == 0 ==> count == 0 && n == 0)
+//@     decreases n
+
+//@ -- evaluateRange: first and one-past-last index of the level of `index` (the shift by a symbolic amount is treated as
+//@ -- uninterpreted, so only safety and purity are claimed; Value() does not depend on more)
+//@ func evaluateRange
+//@   requires index >= 0
+//@   modifies nothing
+//@   ensures [C17] true
+
+//@ -- Value: pure (works on a fresh temporary heap), returns normally at every in-range position
+//@ func Iterator.Value
+//@   requires ItInv(iterator) && 0 <= iterator.index && iterator.index < N(iterator.heap)
+//@   modifies nothing
+//@   ensures [C08 C17 C18] true
+//@   loop 1:
+//@     invariant Inv(tmpHeap) && fresh(tmpHeap) && fresh(tmpHeap.list) && tmpHeap.Comparator == iterator.heap.Comparator && (isnil(tmpHeap.list.elements) || fresh(arr(tmpHeap.list.elements)))
+//@     decreases end - n
+//@   loop 2:
+//@     invariant Inv(tmpHeap) && fresh(tmpHeap) && fresh(tmpHeap.list) && (isnil(tmpHeap.list.elements) || fresh(arr(tmpHeap.list.elements)))
+//@     decreases iterator.index - start - n
+
+//@ func Iterator.NextTo
+//@   requires ItInv(iterator) && f != nil
+//@   modifies iterator.index
+//@   ensures [C08 C17] ItInv(iterator)
+//@   ensures [C08] result ==> old(iterator.index) < iterator.index && iterator.index < N(iterator.heap)
+//@   ensures [C08] !result ==> iterator.index == N(iterator.heap)
+//@   loop 1:
+//@     invariant ItInv(iterator) && old(iterator.index) <= iterator.index
+//@     decreases N(iterator.heap) - iterator.index
+
+//@ func Iterator.PrevTo
+//@   requires ItInv(iterator) && f != nil
+//@   modifies iterator.index
+//@   ensures [C08 C17] ItInv(iterator)
+//@   ensures [C08] result ==> 0 <= iterator.index && iterator.index < old(iterator.index)
+//@   ensures [C08] !result ==> iterator.index == 0 - 1
+//@   loop 1:
+//@     invariant ItInv(iterator) && iterator.index <= old(iterator.index)
+//@     decreases iterator.index + 1
+
+//@ -- Values: one slot per element, freshly allocated (C15, C16); content is the iterator's (level-wise ascending)
+//@ func Heap.Values
+//@   requires Inv(heap)
+//@   modifies nothing
+//@   ensures [C15 C16 C17 C18] len(result) == N(heap) && (N(heap) > 0 ==> fresh(arr(result)))
+//@   loop 1:
+//@     invariant ItInv(it) && fresh(it) && it.heap == heap && len(values) == N(heap) && (N(heap) > 0 ==> fresh(arr(values)))
+//@     decreases N(heap) - it.index
